@@ -266,6 +266,26 @@ def _subst_derefs(blk, subst):
         t["dest"] = _subst_place(t["dest"], subst)
 
 
+def _fn_items_referenced(prog):
+    """ids of lib functions that appear as a function-item operand anywhere (`.map(helper)`, `f as fn(..)`)"""
+    out = set()
+
+    def walk(o):
+        if isinstance(o, dict):
+            v = o.get("v")
+            if isinstance(v, dict) and isinstance(v.get("fn"), str):
+                out.add(v["fn"])
+            for x in o.values():
+                walk(x)
+        elif isinstance(o, list):
+            for x in o:
+                walk(x)
+    for f in prog.fns.values():
+        if f.crate == "abyssiniandb":
+            walk(f.blocks)
+    return out
+
+
 def normalize(prog, protect=(), config="default"):
     """Inline every new (non-baseline), non-role, non-trait-impl function of the lib into its call sites.
     A new function that takes the place of a baseline function which has disappeared (same owner type, same module,
@@ -275,8 +295,18 @@ def normalize(prog, protect=(), config="default"):
     if base is None:
         return []
     protect = set(protect)
+    # new inherent / free functions, and new impls of the std operator traits (`impl Sub for Size<T>`: operator sugar for
+    # what was written out before)
     new = [f for f in prog.fns.values() if f.crate == "abyssiniandb" and f.kind in ("Fn", "AssocFn") and f.id not in base
-           and f.id not in protect and f.impl_trait is None and f.trait_default_of is None and f.blocks and len(f.blocks) <= MAX_BLOCKS]
+           and f.id not in protect and (f.impl_trait is None or f.impl_trait.startswith(("core::ops::arith::", "core::ops::bit::")))
+           and f.trait_default_of is None and f.blocks and len(f.blocks) <= MAX_BLOCKS]
+    # a new private function nobody calls any more once the debug assertions are stripped is dead in the release view
+    callers0 = prog.callers()
+    referenced = _fn_items_referenced(prog)
+    for f in list(new):
+        if not f.is_pub and f.impl_trait is None and not callers0.get(f.id) and f.id not in referenced and not prog.closures_of(f):
+            prog.remove_fn(f.id)
+            new.remove(f)
     if not new:
         return []
     missing = {i: v for i, v in base.items() if i not in prog.fns}
@@ -872,15 +902,32 @@ def _permute_params(prog, fn, old_inputs, old_names):
     new_names = [fn.locals[i].get("name") for i in range(1, fn.arg_count + 1)]
     perm = {}          # old position (0-based) -> new position
     used = set()
-    for i, (ty, nm) in enumerate(zip(old_inputs, old_names)):
-        cands = [j for j, t2 in enumerate(fn.inputs) if t2 == ty and j not in used]
-        if len(cands) > 1:
-            byname = [j for j in cands if new_names[j] == nm and nm is not None]
-            cands = byname if len(byname) == 1 else []
-        if len(cands) != 1:
-            return False
-        perm[i] = cands[0]
-        used.add(cands[0])
+    # pass 1: unique by type, or by type + unchanged name; pass 2: what is left, by elimination within its type (a
+    # parameter that was re-ordered AND renamed, next to a same-typed one that kept its name)
+    for _pass in (1, 2):
+        for i, (ty, nm) in enumerate(zip(old_inputs, old_names)):
+            if i in perm:
+                continue
+            cands = [j for j, t2 in enumerate(fn.inputs) if t2 == ty and j not in used]
+            if len(cands) > 1:
+                byname = [j for j in cands if new_names[j] == nm and nm is not None]
+                if len(byname) == 1:
+                    cands = byname
+                elif _pass == 2:
+                    # candidates whose name is not claimed by another still-unmatched old parameter of this type
+                    others = {old_names[k] for k in range(len(old_inputs)) if k not in perm and k != i and old_inputs[k] == ty}
+                    cands = [j for j in cands if new_names[j] not in others]
+                    cands = cands if len(cands) == 1 else []
+                else:
+                    continue
+            if len(cands) != 1:
+                if _pass == 2:
+                    return False
+                continue
+            perm[i] = cands[0]
+            used.add(cands[0])
+    if len(perm) != len(old_inputs):
+        return False
     if all(i == j for i, j in perm.items()):
         return False
     # body: local (new position j + 1) becomes (old position i + 1)
